@@ -1,2 +1,286 @@
-use crate::harness::Gen;
-pub fn gens() -> Vec<Gen> { vec![] }
+//! C11: issuer and holder instances are reusable; results do not depend on history.
+
+use crate::harness::{fail, Gen, Verdict};
+use crate::keys;
+use crate::oracle::{check_issued, embedded_digests, select_oracle, DiscIndex, Strategy};
+use crate::pipeline::Cfg;
+use crate::rng::Rng;
+use crate::sut::{self, Kb, Out};
+use crate::util::{decode_disclosure, digest, jstr, short, Parts, FAR_EXP, J};
+use serde_json::{json, Map};
+use std::collections::HashSet;
+
+pub fn gens() -> Vec<Gen> {
+    vec![
+        Gen { name: "c11.issuer_sequences", prop: "C11", tags: &["issuer", "issue_sd_jwt", "reset", "holder_key", "cnf", "src/issuer.rs"], cases: cases_issuer, check: check_issuer },
+        Gen { name: "c11.holder_sequences", prop: "C11", tags: &["holder", "create_presentation", "kb_jwt", "sd_jwt_json", "src/holder.rs"], cases: cases_holder, check: check_holder },
+        Gen { name: "c11.issuer_long_random", prop: "C11", tags: &["random"], cases: cases_issuer_random, check: check_issuer },
+        Gen { name: "c11.holder_long_random", prop: "C11", tags: &["random"], cases: cases_holder_random, check: check_holder },
+    ]
+}
+
+fn issuer_steps() -> Vec<J> {
+    let a = json!({"iss": "https://issuer.example/i", "exp": FAR_EXP, "sub": "alice", "name": "Alice", "addr": {"city": "A-town", "zip": "111"}, "tags": ["a0", "a1"]});
+    let b = json!({"iss": "https://issuer.example/i", "exp": FAR_EXP, "sub": "bob", "email": "bob@example.org", "roles": [{"r": "admin"}, "user"]});
+    let c = json!({"iss": "https://issuer.example/i", "iat": 1683000000, "exp": FAR_EXP, "sub": "carol", "n": [[1, 2], [3]], "e": {}, "\u{1F600}": "\u{10FFFF}"});
+    vec![
+        json!({"claims": a, "strategy": "AllLevels", "holder": "es256", "decoys": true, "format": "compact"}),
+        json!({"claims": b, "strategy": "TopLevel", "holder": null, "decoys": false, "format": "json"}),
+        json!({"claims": c, "strategy": {"Custom": ["$.n[0]", "$.n[0][1]", "$.sub"]}, "holder": "eddsa", "decoys": true, "format": "json"}),
+        json!({"claims": a, "strategy": "NoSD", "holder": null, "decoys": false, "format": "compact"}),
+        json!({"claims": b, "strategy": "AllLevels", "holder": "es256-b", "decoys": false, "format": "compact"}),
+        // failing calls
+        json!({"claims": [1, 2], "strategy": "AllLevels", "holder": "eddsa", "decoys": true, "format": "json", "fails": true}),
+        json!({"claims": a, "strategy": {"Custom": ["name"]}, "holder": "es256", "decoys": true, "format": "json", "fails": true}),
+        json!({"claims": {"iss": "i", "exp": FAR_EXP, "x": {"_sd": ["y"]}}, "strategy": "TopLevel", "holder": "eddsa-b", "decoys": true, "format": "compact", "fails": true}),
+        json!({"claims": {"iss": "i", "exp": FAR_EXP, "x": [{"...": "y"}]}, "strategy": "AllLevels", "holder": null, "decoys": false, "format": "json", "fails": true}),
+    ]
+}
+
+fn cases_issuer(rng: &mut Rng, sink: &mut dyn FnMut(J) -> bool) {
+    let steps = issuer_steps();
+    let algs = ["ES256", "EdDSA", "HS256"];
+    let mut n = 0usize;
+    // all sequences of length 2, then 3, then random of length 4
+    for a in &steps {
+        for b in &steps {
+            n += 1;
+            if !sink(json!({"alg": algs[n % 3], "steps": [a, b]})) {
+                return;
+            }
+        }
+    }
+    for a in &steps {
+        for b in &steps {
+            for c in &steps {
+                n += 1;
+                if !sink(json!({"alg": algs[n % 3], "steps": [a, b, c]})) {
+                    return;
+                }
+            }
+        }
+    }
+    for s in &steps {
+        n += 1;
+        if !sink(json!({"alg": algs[n % 3], "steps": [s]})) {
+            return;
+        }
+    }
+    let _ = rng;
+}
+
+fn cases_issuer_random(rng: &mut Rng, sink: &mut dyn FnMut(J) -> bool) {
+    let steps = issuer_steps();
+    let algs = ["ES256", "EdDSA", "HS256"];
+    let mut n = 0usize;
+    loop {
+        n += 1;
+        let seq: Vec<J> = (0..4 + rng.below(5)).map(|_| rng.pick(&steps).clone()).collect();
+        if !sink(json!({"alg": algs[n % 3], "steps": seq})) {
+            return;
+        }
+    }
+}
+
+fn check_issuer(case: &J) -> Verdict {
+    let alg = case["alg"].as_str().unwrap_or("ES256");
+    let Some(steps) = case["steps"].as_array() else { return Verdict::Trivial };
+    let mut issuer = sut::new_issuer(alg);
+    let mut earlier_digests: HashSet<String> = HashSet::new();
+    let mut earlier_disclosures: HashSet<String> = HashSet::new();
+    for (k, step) in steps.iter().enumerate() {
+        let Some(strategy) = Strategy::from_json(&step["strategy"]) else { return Verdict::Trivial };
+        let holder = step["holder"].as_str();
+        let decoys = step["decoys"].as_bool().unwrap_or(false);
+        let format = step["format"].as_str().unwrap_or("compact");
+        let reused = sut::issue_on(&mut issuer, &step["claims"], &strategy, holder, decoys, format);
+        let fresh = sut::issue(alg, &step["claims"], &strategy, holder, decoys, format);
+        let what = format!("call #{} (claims {}, strategy {}, holder {:?}, decoys {decoys}, {format})", k + 1, short(&jstr(&step["claims"]), 120), jstr(&step["strategy"]), holder);
+        match (&reused, &fresh) {
+            (Out::Panic(m), _) => return fail(format!("{what} on the reused issuer: PANIC: {m}"), "what a fresh instance returns"),
+            (Out::Err(_), Out::Err(_)) => continue,
+            (Out::Ok(_), Out::Ok(_)) => {}
+            (r, f) => return fail(format!("{what}: reused issuer -> {}; fresh issuer -> {}", r.brief(), f.brief()), "the same outcome as a fresh instance"),
+        }
+        let Out::Ok(s) = reused else { continue };
+        let Some(parts) = Parts::parse(&s, format) else {
+            return fail(format!("{what}: result is not a {format} SD-JWT: {}", short(&s, 160)), "the requested serialization format");
+        };
+        // the other format must NOT parse the same way (format choice must be this call's)
+        let Some(payload) = parts.payload() else { return fail(format!("{what}: payload does not decode"), "JSON object") };
+        let cnf = holder.map(keys::holder_jwk_json);
+        if let Err(e) = check_issued(&step["claims"], &strategy, &payload, &parts.disclosures, decoys, cnf.as_ref()) {
+            return fail(
+                format!("{what} on an issuer that made {} earlier call(s): {e}; payload = {}", k, short(&jstr(&J::Object(payload.clone())), 500)),
+                "exactly what a fresh instance produces for these arguments (up to salts)",
+            );
+        }
+        // nothing of an earlier call re-appears
+        let mut ds = Vec::new();
+        embedded_digests(&J::Object(payload.clone()), &mut ds);
+        for d in &parts.disclosures {
+            if let Some(v) = decode_disclosure(d) {
+                embedded_digests(&v, &mut ds);
+            }
+        }
+        for d in &ds {
+            if earlier_digests.contains(d) {
+                return fail(format!("{what}: digest {d} already appeared in an earlier credential of this issuer instance"), "fresh salts and decoys in every call");
+            }
+        }
+        for d in &parts.disclosures {
+            if earlier_disclosures.contains(d) {
+                return fail(format!("{what}: a disclosure of an earlier call re-appears"), "only this call's disclosures");
+            }
+        }
+        earlier_digests.extend(ds);
+        earlier_disclosures.extend(parts.disclosures.iter().cloned());
+        let _ = digest;
+    }
+    Verdict::Pass
+}
+
+fn holder_calls() -> Vec<J> {
+    vec![
+        json!({"selection": {"name": true, "addr": {"city": true}, "tags": [true, true]}, "kb": true}),
+        json!({"selection": {"name": true, "addr": {"city": true}, "tags": [true, true]}, "kb": false}),
+        json!({"selection": {"sub": true}, "kb": false}),
+        json!({"selection": {}, "kb": true}),
+        json!({"selection": {}, "kb": false}),
+        json!({"selection": {"addr": {"zip": true}, "tags": [false, true]}, "kb": true}),
+        // failing calls
+        json!({"selection": {"nope": true}, "kb": false, "fails": true}),
+        json!({"selection": {"nope": {"x": true}}, "kb": true, "fails": true}),
+        json!({"selection": {"name": true}, "kb": "inconsistent", "fails": true}),
+        json!({"selection": {"name": true}, "kb": "bad_alg", "fails": true}),
+    ]
+}
+
+fn holder_cfg(n: usize) -> J {
+    {
+        let alg = ["ES256", "EdDSA", "HS256"][n % 3];
+        json!({
+            "format": if n % 2 == 0 { "json" } else { "compact" },
+            "alg": alg,
+            "holder": if (n / 2) % 2 == 0 { "es256" } else { "eddsa" },
+            "strategy": if (n / 4) % 2 == 0 { json!("AllLevels") } else { json!("TopLevel") },
+            "decoys": (n / 3) % 2 == 0
+        })
+    }
+}
+
+fn cases_holder(_rng: &mut Rng, sink: &mut dyn FnMut(J) -> bool) {
+    let calls = holder_calls();
+    let mut n = 0usize;
+    let cfgs = holder_cfg;
+    for a in &calls {
+        for b in &calls {
+            for _rep in 0..2 {
+                n += 1;
+                let mut c = cfgs(n);
+                c["calls"] = json!([a, b]);
+                if !sink(c) {
+                    return;
+                }
+            }
+        }
+    }
+    for a in &calls {
+        for b in &calls {
+            for c3 in &calls {
+                n += 1;
+                let mut c = cfgs(n);
+                c["calls"] = json!([a, b, c3]);
+                if !sink(c) {
+                    return;
+                }
+            }
+        }
+    }
+}
+
+fn cases_holder_random(rng: &mut Rng, sink: &mut dyn FnMut(J) -> bool) {
+    let calls = holder_calls();
+    let mut n = 0usize;
+    let cfgs = holder_cfg;
+    loop {
+        n += 1;
+        let mut c = cfgs(n);
+        c["calls"] = J::Array((0..4 + rng.below(5)).map(|_| rng.pick(&calls).clone()).collect());
+        if !sink(c) {
+            return;
+        }
+    }
+}
+
+fn do_call(h: &mut sd_jwt_rs::SDJWTHolder, call: &J, k: usize, holder: &str) -> (Out<String>, Option<Kb>) {
+    let sel: Map<String, J> = call["selection"].as_object().cloned().unwrap_or_default();
+    let kb = Kb { nonce: format!("nonce-{k}"), aud: format!("https://verifier-{k}.example"), holder: holder.to_string() };
+    match &call["kb"] {
+        J::Bool(true) => (sut::present(h, &sel, Some(&kb)), Some(kb)),
+        J::Bool(false) => (sut::present(h, &sel, None), None),
+        J::String(s) if s == "inconsistent" => (sut::present_raw(h, &sel, Some(kb.nonce.clone()), None, Some(keys::holder_enc(holder)), None), None),
+        _ => (sut::present_raw(h, &sel, Some(kb.nonce.clone()), Some(kb.aud.clone()), Some(keys::holder_enc(holder)), Some("XX999".into())), None),
+    }
+}
+
+fn check_holder(case: &J) -> Verdict {
+    let format = case["format"].as_str().unwrap_or("compact");
+    let holder = case["holder"].as_str().unwrap_or("es256");
+    let Some(strategy) = Strategy::from_json(&case["strategy"]) else { return Verdict::Trivial };
+    let Some(calls) = case["calls"].as_array() else { return Verdict::Trivial };
+    let claims = json!({"iss": "https://issuer.example/i", "exp": FAR_EXP, "sub": "alice", "name": "Alice", "addr": {"city": "A-town", "zip": "111"}, "tags": ["a0", "a1"]});
+    let cfg = Cfg { claims, strategy, format: format.into(), alg: case["alg"].as_str().unwrap_or("ES256").into(), decoys: case["decoys"].as_bool().unwrap_or(false), holder: Some(holder.into()) };
+    let (issued, parts) = match cfg.issue_parts() {
+        Ok(x) => x,
+        Err(v) => return v,
+    };
+    let Some(payload) = parts.payload() else { return Verdict::Trivial };
+    let idx = DiscIndex::new(&parts.disclosures);
+    let mut reused = match sut::holder_new(&issued, format) {
+        Out::Ok(h) => h,
+        o => return fail(format!("SDJWTHolder::new -> {}", o.brief()), "Ok"),
+    };
+    for (k, call) in calls.iter().enumerate() {
+        let (r, kb) = do_call(&mut reused, call, k, holder);
+        let Out::Ok(mut fresh_h) = sut::holder_new(&issued, format) else { return Verdict::Trivial };
+        let (f, _) = do_call(&mut fresh_h, call, k, holder);
+        let what = format!("create_presentation call #{} ({}) on a {format} holder", k + 1, jstr(call));
+        match (&r, &f) {
+            (Out::Panic(m), _) => return fail(format!("{what}: PANIC: {m}"), "what a fresh holder returns"),
+            (Out::Err(_), Out::Err(_)) => continue,
+            (Out::Ok(_), Out::Ok(_)) => {}
+            (r, f) => return fail(format!("{what}: reused holder -> {}; fresh holder -> {}", r.brief(), f.brief()), "the same outcome as a fresh holder"),
+        }
+        let (Out::Ok(rs), Out::Ok(fs)) = (r, f) else { continue };
+        let (Some(rp), Some(fp)) = (Parts::parse(&rs, format), Parts::parse(&fs, format)) else {
+            return fail(format!("{what}: result does not parse as {format}: {}", short(&rs, 200)), "well-formed presentation");
+        };
+        if rp.jwt != fp.jwt || rp.disclosures != fp.disclosures || rp.kb.is_some() != fp.kb.is_some() {
+            return fail(
+                format!("{what} after {k} earlier call(s): {} disclosures, KB-JWT {}", rp.disclosures.len(), if rp.kb.is_some() { "present" } else { "absent" }),
+                format!("as from a fresh holder: {} disclosures, KB-JWT {}", fp.disclosures.len(), if fp.kb.is_some() { "present" } else { "absent" }),
+            );
+        }
+        let expected: HashSet<String> = select_oracle(&payload, &idx, call["selection"].as_object().unwrap_or(&Map::new())).into_iter().collect();
+        let got: HashSet<String> = rp.disclosures.iter().cloned().collect();
+        if got != expected || rp.disclosures.len() != expected.len() {
+            return fail(format!("{what}: {} disclosures presented", rp.disclosures.len()), format!("exactly the {} selected ones", expected.len()));
+        }
+        if let (Some(kbs), Some(kb)) = (&rp.kb, &kb) {
+            let claims: Option<J> = kbs.split('.').nth(1).and_then(crate::util::b64d).and_then(|b| serde_json::from_slice(&b).ok());
+            let want = crate::pipeline::sd_hash(&rp.jwt, &rp.disclosures);
+            let ok = claims.as_ref().map(|c| c["nonce"] == json!(kb.nonce) && c["aud"] == json!(kb.aud) && c["sd_hash"] == json!(want)).unwrap_or(false);
+            if !ok {
+                return fail(format!("{what}: KB-JWT payload {}", claims.map(|c| jstr(&c)).unwrap_or_default()), format!("this call's nonce {}, aud {} and sd_hash {want}", kb.nonce, kb.aud));
+            }
+            // and the verifier accepts it
+            if let Out::Err(e) = sut::verify(&rs, &cfg.alg, Some(kb), format) {
+                return fail(format!("{what}: verifier rejects the presentation: {e}"), "accepted");
+            }
+        } else if rp.kb.is_some() != kb.is_some() {
+            return fail(format!("{what}: KB-JWT {}", if rp.kb.is_some() { "present although not requested" } else { "absent although requested" }), "KB-JWT iff requested");
+        }
+    }
+    Verdict::Pass
+}
